@@ -38,7 +38,7 @@ CONFIG = dict(
     nshards={"quick": 8, "thorough": 16},
     timeout={"quick": 900, "thorough": 5400},
     required_counters=("gate_checks", "returned_loads_compared", "nonreturning_effect_checks",
-                       "failpoints_fired", "toctou_swaps", "executed_vs_analysed_compared"),
+                       "failpoints_fired", "toctou_swaps", "executed_vs_analysed_compared", "sequence_probes"),
 )
 
 RANKS = ["LIKELY_SAFE", "POSSIBLY_UNSAFE", "SUSPICIOUS", "LIKELY_UNSAFE", "LIKELY_OVERTLY_MALICIOUS",
@@ -573,6 +573,96 @@ def cases(ctx, mods):
                 yield label, data, "LIKELY_UNSAFE" if path == "loader" else "LIKELY_SAFE", path, kind, None, True
 
 
+SEQ_OPS = ["hook", "ctx:LIKELY_SAFE", "ctx:SUSPICIOUS", "ctx:OVERTLY_MALICIOUS", "exit", "remove"]
+SEQ_PROBES = [("suspicious", b"ccollections\nOrderedDict\n(tR0N."), ("unsafe-sink", b"cvp_sink\nhit\n(K\x01tR."),
+              ("lom-getpid", b"cos\ngetpid\n(tR."), ("om-eval", b"c__builtin__\neval\n(S'1+1'\ntR.")]
+
+
+def run_sequence(ctx, mods, hist):
+    """Arming paths interleaved: the accepted severity in force for a probe is that of the innermost
+    active arming (hook: LIKELY_SAFE; context: its configured severity, or stricter).  A probe above it
+    must not return - whatever other contexts with more permissive thresholds were entered and left."""
+    import itertools  # noqa: F401
+    fickling, f, analysis, loader, hook, U = mods
+    from fickling.context import FicklingContextManager
+    import vp_sink
+    agg = ctx.agg
+    key = h(("seq|" + ",".join(hist)).encode())
+    if not agg.case(key, True, {"arming_sequence": hist}):
+        return
+    stack, cms, current = [], [], None
+    try:
+        for op in hist:
+            if op == "hook":
+                fickling.always_check_safety()
+                current = "LIKELY_SAFE"
+            elif op.startswith("ctx:"):
+                t = op[4:]
+                cm = FicklingContextManager(max_acceptable_severity=getattr(analysis.Severity, t))
+                stack.append(current)
+                cm.__enter__()
+                cms.append(cm)
+                current = t
+            elif op == "exit":
+                if not cms:
+                    continue
+                cms.pop().__exit__(None, None, None)
+                current = stack.pop()
+            elif op == "remove":
+                hook.remove_hook()
+                current = None
+            if current is None:
+                continue
+            for plabel, data in SEQ_PROBES:
+                verdict = analysis.check_safety(f.Pickled.load(data)).severity.name
+                del vp_sink.LOG[:]
+                try:
+                    pickle.load(io.BytesIO(data))
+                    returned = True
+                except Exception:
+                    returned = False
+                ran = bool(vp_sink.LOG)
+                del vp_sink.LOG[:]
+                agg.count("sequence_probes")
+                if (returned or ran) and RANKS.index(verdict) > RANKS.index(current):
+                    agg.violation("returned-above-threshold:arming-sequence",
+                                  f"after {hist[:hist.index(op) + 1]} the accepted severity in force is {current}, yet a "
+                                  f"{verdict} pickle was loaded through pickle.load",
+                                  {"sequence": hist, "probe": plabel, "hex": data.hex()})
+                    return
+    finally:
+        while cms:
+            try:
+                cms.pop().__exit__(None, None, None)
+            except Exception:
+                pass
+        hook.remove_hook()
+        pickle.load, pickle.loads = ORIG_PICKLE_LOAD, ORIG_PICKLE_LOADS
+        _pickle.load, _pickle.loads = ORIG_LOAD, ORIG_LOADS
+
+
+def sequences(ctx):
+    import itertools
+    L = {"quick": 3, "thorough": 5}[ctx.tier]
+    idx = 0
+    for n in range(1, L + 1):
+        for hist in itertools.product(SEQ_OPS, repeat=n):
+            depth, ok = 0, True
+            for op in hist:
+                if op.startswith("ctx:"):
+                    depth += 1
+                elif op == "exit":
+                    if depth == 0:
+                        ok = False
+                        break
+                    depth -= 1
+            if not ok or depth > 3:
+                continue
+            idx += 1
+            if idx % ctx.nshards == ctx.shard:
+                yield list(hist)
+
+
 def setup(ctx):
     import fickling
     import fickling.fickle as f
@@ -591,6 +681,8 @@ def run_shard(ctx):
         if i % ctx.nshards != ctx.shard:
             continue
         run_case(ctx, mods, watch, *c)
+    for hist in sequences(ctx):
+        run_sequence(ctx, mods, hist)
     if pickle.load is not ORIG_PICKLE_LOAD or pickle.loads is not ORIG_PICKLE_LOADS:
         ctx.agg.notes.append("pickle bindings not restored at end of shard (C12's business)")
 
@@ -598,6 +690,9 @@ def run_shard(ctx):
 def replay(ctx, payload):
     mods, watch = setup(ctx)
     c = payload["case"]
+    if "sequence" in c:
+        run_sequence(ctx, mods, c["sequence"])
+        return
     fault = tuple(c["fault"]) if c.get("fault") else None
     run_case(ctx, mods, watch, c.get("label", "replay"), bytes.fromhex(c["hex"]), c["threshold"], c["path"],
              c["stream"], fault, c.get("swap", False))
